@@ -137,6 +137,8 @@ def hot_cached_strategy(tier):
         "ttl": st.sampled_from([2, 8, 40]),
         "seed": st.integers(0, 50),
         "pre": st.lists(st.integers(0, 2), max_size=2),
+        "warm": st.one_of(st.none(), st.fixed_dictionaries({"start": st.integers(0, 6), "gap": st.integers(0, 2),
+                                                     "keys": st.lists(st.sampled_from([0, 0, 0, 1]), min_size=2, max_size=8)})),
         "workers": st.lists(worker, min_size=2, max_size=4),
     })
 
@@ -155,6 +157,8 @@ def general_cached_strategy(tier):
         "ttl": st.sampled_from([2, 8, 40]),
         "seed": st.integers(0, 50),
         "pre": st.lists(st.integers(0, 4), max_size=3),
+        "warm": st.one_of(st.none(), st.none(), st.fixed_dictionaries({"start": st.integers(0, 8), "gap": st.integers(0, 2),
+                                                                  "keys": st.lists(st.integers(0, 4), min_size=1, max_size=6)})),
         "workers": workers_strategy(tier, OPS),
     })
 
@@ -217,6 +221,17 @@ def run_cached(case, obl, safe=False):
     # ---- closing worker: flush, then read every key -------------------------------------------
     per_op = max(rl, wl, cl, nkeys * wl) + 8
     t_close = max(w["start"] + len(w["ops"]) * per_op for w in workers) + 4
+    # optional CacheWarmer running concurrently with the workers (not in the restricted twin: it reads every key)
+    warm = case.get("warm") if not safe else None
+    warmer = None
+    if isinstance(warm, dict):
+        wkeys = [keys[_clamp(x, 0, 99) % nkeys] for x in (warm.get("keys") or [])][:8]
+        wgap = [1, 2, 4][_clamp(warm.get("gap", 0), 0, 99) % 3]
+        wstart = _clamp(warm.get("start", 0), 0, 16)
+        if wkeys:
+            from happysimulator.components.datastore.cache_warming import CacheWarmer
+            warmer = CacheWarmer("warmer", cache=cs, keys_to_warm=list(wkeys), warmup_rate=512 / wgap)
+            t_close = max(t_close, wstart + len(wkeys) * (max(rl, cl) + wgap + 2) + 8)
     closer = len(workers)
     plan = [{"start": w["start"], "ops": [(o[0], keys[o[1]], None, o[2]) for o in w["ops"]]} for w in workers]
     plan.append({"start": t_close, "ops": [("flush", None, None, 0)] + [("get", k, None, 0) for k in keys]})
@@ -320,9 +335,14 @@ def run_cached(case, obl, safe=False):
         return None
 
     harness, log, start_events = build_harness("h", plan, run_op, after_op=lambda rec: check_inv(f"after {rec!r}"), seq=seq)
-    sim = Simulation(entities=[kv, cs, harness], end_time=Instant((t_close + (nkeys + 2) * per_op + 50) * TICK))
+    sim = Simulation(entities=[kv, cs, harness] + ([warmer] if warmer is not None else []),
+                     end_time=Instant((t_close + (nkeys + 2) * per_op + 50) * TICK))
     for e in start_events():
         sim.schedule(e)
+    if warmer is not None:
+        from happysimulator import Event
+        warmer.start_warming()
+        sim.schedule(Event(time=Instant(wstart * TICK), event_type="cache_warm", target=warmer, context={"action": "warm_next"}))
     probe = SimProbe(sim, max_per_instant=5000, max_events=50000, log=False,
                      on_event=lambda ev: check_inv(f"t={ev.time.nanoseconds / TICK:g} after an engine event"))
     try:
@@ -416,6 +436,7 @@ def run_cached(case, obl, safe=False):
                      + 5 * min(miss_2w, 3) + 2 * min(miss_1w, 3))
     if miss_2w:
         r.nontrivial = True
+    r.labels.append("warmer" if warmer is not None else "no-warmer")
     r.labels += [pol_name, mode, "evict" if stats["evictions"] else "no-evict",
                  "miss-during-2-writes" if miss_2w else ("miss-during-1-write" if miss_1w else "no-miss-during-write"),
                  "put-during-writeback" if put_in_writeback else "no-put-during-writeback",
@@ -908,7 +929,8 @@ def ex_pagecache(case, obl="pagecache", safe=False):
 def writepolicy_strategy(tier):
     return st.fixed_dictionaries({
         "max_dirty": st.integers(1, 4),
-        "ops": st.lists(st.tuples(st.sampled_from(["w", "w", "w", "flush", "pflush"]), st.integers(0, 4)).map(list), max_size=20),
+        "ops": st.lists(st.tuples(st.sampled_from(["w", "w", "w", "flush", "pflush", "take", "take", "ack", "ack"]),
+                                  st.integers(0, 4)).map(list), max_size=20),
     })
 
 
@@ -919,9 +941,20 @@ def ex_writepolicy(case, obl="writepolicy"):
     wb, wth, wa = WriteBack(flush_interval=1.0, max_dirty=md), WriteThrough(), WriteAround()
     dirty, pending_inv = set(), []
     flushed_any = False
+    taken = []                 # dirty-key lists handed to flushes that are still in flight (acknowledged later, in any order)
+    late_ack = False
     for op, k in case.get("ops") or []:
         key = f"k{_clamp(k, 0, 4)}"
-        if op == "w":
+        if op == "take":
+            taken.append(list(wb.get_keys_to_flush()))
+        elif op == "ack":
+            if taken:
+                ks = taken.pop(_clamp(k, 0, 99) % len(taken))
+                late_ack = late_ack or not set(ks) >= dirty
+                wb.on_flush(ks)            # acknowledges exactly these keys; keys written since stay dirty
+                dirty -= set(ks)
+                flushed_any = True
+        elif op == "w":
             wb.on_write(key, 1); wth.on_write(key, 1); wa.on_write(key, 1)
             dirty.add(key); pending_inv.append(key)
         elif op == "flush":
@@ -949,6 +982,7 @@ def ex_writepolicy(case, obl="writepolicy"):
             r.add(f"{P}/{obl}/mode-flags", "")
     r.nontrivial = flushed_any and len(case.get("ops") or []) >= 4
     r.labels.append("flushed" if flushed_any else "no-flush")
+    r.labels.append("ack-not-covering-dirty-set" if late_ack else "acks-cover")
     return r
 
 
